@@ -21,6 +21,8 @@ def get():
     scpv = lower.shadow("pkgcore.ebuild.cpv", shim_names=SHIMS)
     for nm in ("suffix_regexp", "isvalid_version_re", "isvalid_cat_re", "_pkg_re"):
         setattr(scpv, nm, SymRegex(getattr(real_cpv, nm)))
+    # one Revision class only: real code does isinstance(x, Revision) against the real class
+    scpv.Revision = real_cpv.Revision
     satom = lower.shadow("pkgcore.ebuild.atom", shim_names=SHIMS)
     satom.cpv = scpv
     scpv.atom = satom
